@@ -28,11 +28,15 @@ def _common(obj, kind, mode, desc, rec):
     n0 = float(np.linalg.norm(v0))
     D_old = [a.shape[bax] for a in obj.A] + [obj.A[-1].shape[bax + 1]]
     q_first = np.array(obj.qD[0]).copy(); q_last = np.array(obj.qD[-1]).copy()
+    # rounding scale: the norm itself, or (for states that are small through cancellation) the product of the tensor norms
+    tmag = 1.0
+    for a in obj.A:
+        tmag *= float(np.linalg.norm(np.asarray(a, dtype=complex)))
+    scale = max(n0, 1e-3 * tmag, 1e-300)
     nrm = obj.orthonormalize(mode=mode)
     require(np.ndim(nrm) == 0 and np.isreal(nrm) and np.isfinite(nrm), 'returned factor is not a finite real scalar', nrm=repr(nrm))
     nrm = float(np.real(nrm))
     require(nrm >= 0, 'returned factor is negative', nrm=nrm)
-    scale = max(1.0, n0)
     require(abs(nrm - n0) <= TOL * scale, 'returned factor differs from the norm of the original object', nrm=nrm, norm=n0)
     require(len(obj.A) == L and len(obj.qD) == L + 1, 'number of tensors / charge lists changed')
     for i, a in enumerate(obj.A):
@@ -59,7 +63,7 @@ def _common(obj, kind, mode, desc, rec):
         e = float(np.linalg.norm(G - np.identity(G.shape[0])))
         require(e <= TOL * max(1, G.shape[0]), 'site tensor is not an isometry in the chosen direction', site=i, err=e)
         rec.metric('iso_err', e)
-    if n0 > 0:
+    if n0 > 1e-9 * tmag:
         e1 = abs(float(np.linalg.norm(v1)) - 1)
         require(e1 <= TOL, 'object does not have unit norm afterwards', err=e1)
         require(np.array_equal(obj.qD[0], q_first) and np.array_equal(obj.qD[-1], q_last),
@@ -89,9 +93,9 @@ def _common(obj, kind, mode, desc, rec):
         rec.label('all_zero_charges')
     if any(list(q) != sorted(q) for q in desc['qD']):
         rec.label('unsorted_bond_charges')
-    rec.nontrivial = bool(n0 > 0 and L >= 2 and max(D_old) >= 2)
+    rec.nontrivial = bool(n0 > 1e-9 * tmag and L >= 2 and max(D_old) >= 2)
     # second application is idempotent up to rounding: factor 1, same dense form
-    if n0 > 0:
+    if n0 > 1e-9 * tmag:
         nrm2 = float(np.real(obj.orthonormalize(mode=mode)))
         require(abs(nrm2 - 1) <= TOL, 'orthonormalizing a normalized object does not return 1', nrm2=nrm2)
         v2 = np.asarray(to_dense([np.asarray(a, dtype=complex) for a in obj.A]))
